@@ -147,6 +147,9 @@ pub struct RecInner {
     powered_off: AtomicBool,
     fault_fired: AtomicBool,
     gate: AtomicBool,
+    /// mutations additionally return Pending once AFTER they landed (the caller can be cancelled
+    /// between the backend effect and observing its result)
+    gate_after: AtomicBool,
     /// number of calls that went through the gate (progress signal for schedulers)
     pub gate_passes: AtomicU64,
     record_reads: AtomicBool,
@@ -254,6 +257,7 @@ impl RecStore {
             powered_off: AtomicBool::new(false),
             fault_fired: AtomicBool::new(false),
             gate: AtomicBool::new(false),
+            gate_after: AtomicBool::new(false),
             gate_passes: AtomicU64::new(0),
             record_reads: AtomicBool::new(true),
         }))
@@ -291,6 +295,10 @@ impl RecStore {
     }
     pub fn set_gate(&self, on: bool) {
         self.0.gate.store(on, Ordering::SeqCst);
+    }
+    /// Post-call yield for mutations (see `gate_after`).
+    pub fn set_gate_after(&self, on: bool) {
+        self.0.gate_after.store(on, Ordering::SeqCst);
     }
     pub fn set_record_reads(&self, on: bool) {
         self.0.record_reads.store(on, Ordering::SeqCst);
@@ -402,6 +410,12 @@ impl RecStore {
         if self.0.gate.load(Ordering::SeqCst) {
             yield_once().await;
             self.0.gate_passes.fetch_add(1, Ordering::SeqCst);
+        }
+    }
+
+    async fn gate_post(&self) {
+        if self.0.gate_after.load(Ordering::SeqCst) {
+            yield_once().await;
         }
     }
 
@@ -564,6 +578,7 @@ impl ObjectStore for RecStore {
                     if fail { Some("fail_after") } else { None },
                 );
                 self.landed_one();
+                self.gate_post().await;
                 if fail {
                     Err(injected("fail after (landed)", OpKind::Put, p))
                 } else {
@@ -675,6 +690,7 @@ impl ObjectStore for RecStore {
                                 if fail { Some("fail_after") } else { None },
                             );
                             this.landed_one();
+                            this.gate_post().await;
                             if fail {
                                 Err(injected("fail after (landed)", OpKind::Delete, &p))
                             } else {
@@ -769,6 +785,7 @@ impl ObjectStore for RecStore {
                     if fail { Some("fail_after") } else { None },
                 );
                 self.landed_one();
+                self.gate_post().await;
                 if fail {
                     Err(injected("fail after (landed)", OpKind::Copy, &p))
                 } else {
@@ -801,6 +818,7 @@ impl ObjectStore for RecStore {
                     if fail { Some("fail_after") } else { None },
                 );
                 self.landed_one();
+                self.gate_post().await;
                 if fail {
                     Err(injected("fail after (landed)", OpKind::Rename, &p))
                 } else {
@@ -892,6 +910,7 @@ impl MultipartUpload for RecUpload {
                     if fail { Some("fail_after") } else { None },
                 );
                 self.store.landed_one();
+                self.store.gate_post().await;
                 if fail {
                     Err(injected("fail after (landed)", OpKind::MultipartComplete, &p))
                 } else {
